@@ -456,3 +456,47 @@ impl<C: Context> Package<Ctx<C>> {
         codegen::testing::run_tests(&mut self.module, Ctx(ctx))
     }
 }
+
+#[cfg(feature = "verif-hooks")]
+impl RotoReport {
+    /// Every location this report cites: `(file index, start, end)` in bytes.
+    pub fn verif_locations(&self) -> Vec<(usize, usize, usize)> {
+        let mut out = Vec::new();
+        for error in &self.errors {
+            match error {
+                RotoError::Parse(e) => {
+                    let s = e.location;
+                    out.push((s.file, s.start, s.end));
+                    for h in &e.hints {
+                        out.push((h.location.file, h.location.start, h.location.end));
+                    }
+                }
+                RotoError::Type(e) => {
+                    let s = self.spans.get(e.location);
+                    out.push((s.file, s.start, s.end));
+                    for l in &e.labels {
+                        let s = self.spans.get(l.id);
+                        out.push((s.file, s.start, s.end));
+                    }
+                }
+                _ => {}
+            }
+        }
+        out
+    }
+
+    /// The kind of each error in this report: `"read"`, `"parse"`, `"type"`, ...
+    pub fn verif_kinds(&self) -> Vec<&'static str> {
+        self.errors
+            .iter()
+            .map(|e| match e {
+                RotoError::Read(..) => "read",
+                RotoError::Parse(..) => "parse",
+                RotoError::Type(..) => "type",
+                RotoError::TestsFailed() => "tests-failed",
+                RotoError::CouldNotRetrieveFunction(..) => "retrieve",
+                RotoError::Custom(..) => "custom",
+            })
+            .collect()
+    }
+}
